@@ -109,11 +109,11 @@ static struct fdinfo g_fds[MAXFD];
 
 enum kind {
   K_OPENR, K_OPENW, K_OPENDIR, K_READ, K_WRITE, K_READDIR, K_SHORT_READ, K_SHORT_WRITE,
-  K_EINTR_READ, K_EINTR_WRITE, K_EINTR_OPEN, K_CLOCKJUMP, K_CRASH, K_RENAME, K_STATSIZE, K_TTY, K_DEVNO, K_NKINDS
+  K_EINTR_READ, K_EINTR_WRITE, K_EINTR_OPEN, K_CLOCKJUMP, K_CRASH, K_RENAME, K_STATSIZE, K_TTY, K_DEVNO, K_FLOCK, K_NKINDS
 };
 static const char *kind_names[] = {"openr", "openw", "opendir", "read", "write", "readdir",
                                    "short_read", "short_write", "eintr_read", "eintr_write",
-                                   "eintr_open", "clockjump", "crash", "rename", "statsize", "tty", "devno"};
+                                   "eintr_open", "clockjump", "crash", "rename", "statsize", "tty", "devno", "flock"};
 struct rule {
   int kind;
   char sel[RELMAX];
@@ -155,7 +155,7 @@ static const struct errname errnames[] = {
   {"ENOSPC", ENOSPC}, {"EPIPE", EPIPE}, {"EINTR", EINTR}, {"EISDIR", EISDIR}, {"ENOTDIR", ENOTDIR},
   {"EPERM", EPERM}, {"EDQUOT", EDQUOT}, {"EFBIG", EFBIG}, {"ENFILE", ENFILE}, {"ENOMEM", ENOMEM},
   {"EBADF", EBADF}, {"ELOOP", ELOOP}, {"ENAMETOOLONG", ENAMETOOLONG}, {"EAGAIN", EAGAIN},
-  {"ETXTBSY", ETXTBSY}, {"EBUSY", EBUSY}, {"EXDEV", EXDEV}, {0, 0}};
+  {"ETXTBSY", ETXTBSY}, {"EBUSY", EBUSY}, {"EXDEV", EXDEV}, {"EWOULDBLOCK", EWOULDBLOCK}, {"ENOLCK", ENOLCK}, {0, 0}};
 static int errno_from_name(const char *s) {
   for (int i = 0; errnames[i].n; i++) if (!strcmp(errnames[i].n, s)) return errnames[i].v;
   return atoi(s);
@@ -771,6 +771,69 @@ int statx(int dirfd, const char *path, int flags, unsigned int mask, struct stat
   return r;
 }
 
+/* ------------------------------------------------------------------ in-kernel copies
+ * copy_file_range / sendfile / splice move bytes without read() and write(), i.e. past the seam.
+ * In a world process they answer ENOSYS - as under an old kernel or a seccomp filter - and every
+ * caller that is prepared for that (std::io::copy is) falls back to read + write, which the
+ * simulator owns. */
+static int in_kernel_copy_refused(const char *what) {
+  vsim_init();
+  if (!g_world) return 0;
+  pthread_mutex_lock(&g_lock);
+  event_begin(what, "-");
+  trace_line(what, "-", 0, -1, ENOSYS, -1);
+  pthread_mutex_unlock(&g_lock);
+  errno = ENOSYS;
+  return 1;
+}
+ssize_t copy_file_range(int fd_in, off64_t *off_in, int fd_out, off64_t *off_out, size_t len, unsigned int flags) {
+  if (in_kernel_copy_refused("copy_file_range")) return -1;
+  return (ssize_t)real_syscall(SYS_copy_file_range, fd_in, off_in, fd_out, off_out, len, flags);
+}
+ssize_t sendfile64(int out_fd, int in_fd, off64_t *offset, size_t count) {
+  if (in_kernel_copy_refused("sendfile")) return -1;
+  return (ssize_t)real_syscall(SYS_sendfile, out_fd, in_fd, offset, count);
+}
+ssize_t sendfile(int out_fd, int in_fd, off_t *offset, size_t count) { return sendfile64(out_fd, in_fd, (off64_t *)offset, count); }
+ssize_t splice(int fd_in, off64_t *off_in, int fd_out, off64_t *off_out, size_t len, unsigned int flags) {
+  if (in_kernel_copy_refused("splice")) return -1;
+  return (ssize_t)real_syscall(SYS_splice, fd_in, off_in, fd_out, off_out, len, flags);
+}
+
+/* ------------------------------------------------------------------ advisory locks
+ * `flock:<path>:n:EWOULDBLOCK`: the n-th and later flock()/lockf-style requests on a matching
+ * in-world descriptor fail as if another process held the lock (two overlapping runs, an editor
+ * hook and a pre-commit hook). Whatever a tool does then - wait, go on without the lock, give
+ * up with an error - it must not claim success for work it has not done. */
+static int (*real_flock)(int, int);
+int flock(int fd, int op) {
+  vsim_init();
+  if (!real_flock) real_flock = dlsym(RTLD_NEXT, "flock");
+  if (g_world && fd >= 0 && fd < MAXFD && g_fds[fd].used && g_fds[fd].rel[0] != '@' && !(op & 8 /* LOCK_UN */)) {
+    pthread_mutex_lock(&g_lock);
+    event_begin("flock", g_fds[fd].rel);
+    for (int i = 0; i < g_nrules; i++) {
+      struct rule *ru = &g_rules[i];
+      if (ru->kind != K_FLOCK || !sel_match(ru, g_fds[fd].rel)) continue;
+      ru->hits++;
+      if (ru->hits >= ru->when) {
+        ru->fired = 1;
+        trace_line("flock", g_fds[fd].rel, op, -1, (int)ru->arg, i);
+        pthread_mutex_unlock(&g_lock);
+        errno = (int)ru->arg;
+        return -1;
+      }
+    }
+    int r = real_flock ? real_flock(fd, op) : -1;
+    int e = errno;
+    trace_line("flock", g_fds[fd].rel, op, r, e, -1);
+    pthread_mutex_unlock(&g_lock);
+    errno = e;
+    return r;
+  }
+  return real_flock ? real_flock(fd, op) : -1;
+}
+
 /* ------------------------------------------------------------------ terminal-ness
  * `tty:@1:0:1` / `tty:@2:0:1`: isatty() of that descriptor answers 1 (the output still goes to the
  * harness's file). What a tool prints as formatted text, writes to files and returns as exit
@@ -983,6 +1046,7 @@ long syscall(long number, ...) {
    * single threaded, so a constant keeps message lengths - and with them the event trace -
    * a pure function of the seed */
   if (g_world && (number == SYS_gettid || number == SYS_getpid)) return 4242;
+  if (g_world && (number == SYS_copy_file_range || number == SYS_sendfile || number == SYS_splice)) { errno = ENOSYS; return -1; }
   if (g_world && number == SYS_statx) return statx((int)a1, (const char *)a2, (int)a3, (unsigned int)a4, (struct statx *)a5);
   return real_syscall(number, a1, a2, a3, a4, a5, a6);
 }
